@@ -440,10 +440,19 @@ fn parse_command(
 			group.output_filename.is_none() &&
 			command.input_filenames.len() >= 1
 		{
-			group.output_filename = Some(derive_output_filename(
+			let derived_filename = derive_output_filename(
 				report,
 				group.format.unwrap(),
-				&command.input_filenames[0])?);
+				&command.input_filenames[0])?;
+
+			// The derived name must not clobber any of the input files
+			if command.input_filenames.contains(&derived_filename)
+			{
+				report.error("cannot derive safe output filename");
+				return Err(());
+			}
+
+			group.output_filename = Some(derived_filename);
 		}
 	}
 
